@@ -13,7 +13,7 @@ import (
 	"bklverif/tv"
 )
 
-var encStructural = []string{"join", "join:,", "join: ", "prefix:--", "prefix:x=", "flatten", "tolist:=", "tolist::", "values", "flags"}
+var encStructural = []string{"join", "join:,", "join: ", "join:%d", "prefix:--", "prefix:x=", "prefix:%", "prefix:q=%20s", "tolist:%v", "flatten", "tolist:=", "tolist::", "values", "flags"}
 var encMalformed = []string{"join:a:b", "prefix", "prefix:a:b", "flatten:x", "tolist", "tolist:a:b", "values:x", "base64:x", "sha256:1", "yaml:x", "bogus", ""}
 var encCodecs = []string{"base64", "sha256", "json", "yaml", "toml", "json-pretty", "yml", "jsonl"}
 
